@@ -75,7 +75,14 @@ class View:
     def __init__(self, rec, sc):
         self.rec = rec
         self.sc = sc
-        self.cfg = cfg = sc["cfg"]
+        cfg = sc["cfg"]
+        # public attributes reassigned between calls (sc["calls"][k]["set"]): the configuration in force for THIS call
+        sets = [c["set"] for c in sc["calls"][: (rec.idx or 0) + 1] if c.get("set")] if not rec.entry.lstrip("a").startswith("deco") and not (cfg.get("no_retry") and rec.entry.lstrip("a").startswith("policy.")) else []
+        if sets:
+            cfg = dict(cfg)
+            for st in sets:
+                cfg.update(st)
+        self.cfg = cfg
         self.env = e = rec.env
         self.trace = tr = rec.trace
         self.pre = []
